@@ -256,6 +256,7 @@ type Replay struct {
 	Batch    int             `json:"batch"`
 	Index    int             `json:"index"`
 	Tier     string          `json:"tier"`
+	Procs    int             `json:"gomaxprocs,omitempty"` // GOMAXPROCS the worker ran with (0: the machine's)
 	Case     json.RawMessage `json:"case"`
 	Stderr   string          `json:"stderr_tail,omitempty"`
 }
